@@ -267,6 +267,38 @@ ModAtLoad(d, nowvars) == ModV(d)
 MSetVal == 5                          \* importer command  n->m_cnt = 5
 (* ---- Round 4 (C11) end ---------------------------------------------------- *)
 
+(* ---- Round 5 (C10) begin ------------------------------------------------------
+   (a) A world that changes between two commands.  The module directory of the
+       interpreters is not fixed: a module file that is not there at the start
+       appears (FSLate: `late`) and disappears again, a file changes its content
+       before it was ever loaded successfully (`flaky`: version 0 fails at its
+       top level, version 1 is not well-formed, version 2 is sound), and a
+       program appends a second directory (ExtraDir) to its OWN interpreter's
+       module path.  A failed `require` leaves nothing: once the module can be
+       loaded, the next require loads it, exactly as on an interpreter that
+       never saw the failed attempt (no record of "not found", of the error, of
+       the parsed text survives the call).
+   (b) Bundled modules are modules like the others: an interpreter evaluates
+       its own instance under its OWN base environment.  Two of them have
+       contents the model follows, through what depends on that base:
+         list   first(lst) asks the base-level function is_list - a program
+                that reassigns it (`is_list = fn(obj) FALSE`, the assignment
+                reaches the base environment of ITS interpreter) breaks
+                List->first in that interpreter and in no other;
+         io     read_file exists in an interpreter that is not in secure mode
+                (Session.Insecure) and in no other.
+   (c) NullV: the value NULL in a scope (`"doc" def dn = NULL`); the doc string
+       of a definition belongs to that definition of that interpreter.       *)
+FSLate   == ("late" :> File(<<SDef("late_a")>>, {NSt("late")}))
+FlakyV(k) == CASE k = 0 -> File(<<SDef("flaky_x"), SFail, SDef("flaky_y")>>, {NSt("flaky")})
+               [] k = 1 -> [syn |-> TRUE, body |-> << >>, priv |-> {}]
+               [] OTHER -> File(<<SDef("flaky_x"), SDef("flaky_y")>>, {NSt("flaky")})
+FSWorld0 == ("flaky" :> FlakyV(0))            \* (what the directory holds of them at the start)
+ExtraDir == FS10B                             \* the directory `addpath` appends: good (other contents), solo
+NullV    == [k |-> "null", id |-> "", n |-> "", v |-> 0]
+C10Files5 == C10Files @@ FSWorld0             \* the module directory of C10 at the start
+(* ---- Round 5 (C10) end ------------------------------------------------------ *)
+
 \* Bundled modules (src/ckl/modules/*.ckl) are found whatever the case of the
 \* name used (nodes.py: "modules/" + basename.lower()); the start-up code
 \* requires Sys (modules/base.ckl), so `sys` is loaded in every interpreter
@@ -274,6 +306,7 @@ MSetVal == 5                          \* importer command  n->m_cnt = 5
 \* object of a bundled module is observed for what it is and for which
 \* instance it shows, not for its members).
 Spell == ("Sys" :> "sys") @@ ("Stat" :> "stat") @@ ("STAT" :> "stat")
+         @@ ("List" :> "list") @@ ("IO" :> "io")          \* round 5 (C10)
 Canon(sp) == IF sp \in DOMAIN Spell THEN Spell[sp]              \* spelling -> file
              ELSE IF sp \in DOMAIN UserSpell THEN UserSpell[sp]   \* round 3 (C11): a string
              ELSE sp
@@ -281,6 +314,7 @@ Canon(sp) == IF sp \in DOMAIN Spell THEN Spell[sp]              \* spelling -> f
 \* for a string that is the file's name without directory and extension
 BindNm(sp) == IF sp \in DOMAIN UserSpell THEN UserSpell[sp] ELSE sp
 BundledFS == ("sys" :> File(<< >>, {})) @@ ("stat" :> File(<< >>, {}))
+             @@ ("list" :> File(<< >>, {})) @@ ("io" :> File(<< >>, {}))      \* round 5 (C10)
 Bundled == DOMAIN BundledFS
 Preloaded == {"sys"}
 
